@@ -475,6 +475,16 @@ class Interp:
         except _Abort:
             raise
         except SIM_EXC as e:
+            if not getattr(e, "_sim_injected", False):
+                # not the simulator's exception: the context machinery itself raised (judged as such, like in do_ctx)
+                self.ctx_depth = max(0, self.ctx_depth - 1)
+                for cm, frame in reversed(active):
+                    try:
+                        cm.__exit__(None, None, None)
+                    except Exception:  # noqa: BLE001
+                        pass
+                    self.model.update(frame)
+                self._machinery_raised(k, e)
             # an exception travels through: whoever drives contexts by hand leaves the ones still active, innermost first
             self.ctx_depth = max(0, self.ctx_depth - 1)
             for cm, frame in reversed(active):
